@@ -61,6 +61,9 @@ PROBES = {
             'split-inside-crlf', 'segmented-delivery', 'coalesced-lines', 'pool>=10', 'docs>=4'],
 }
 
+# reach probes of the "long-lived application" runs (DESIGN section 12.1), tracked like the others
+PROBES['C16'] = list(PROBES['C16']) + ['more-than-1000-relays-departed']
+
 # flags in the order Tor prints them (alphabetical)
 FLAGS = ['Authority', 'BadExit', 'Exit', 'Fast', 'Guard', 'HSDir', 'Named', 'Running', 'Stable', 'Unnamed',
          'V2Dir', 'Valid']
